@@ -134,7 +134,7 @@ func init() {
 	vlib.Register(&vlib.Prop{
 		ID:    "C18",
 		Level: "exploration",
-		Cases: func(tier string) int { return vlib.TierN(tier, 600, 48000) },
+		Cases: allCases,
 		Rule: "each case: one GoChannel, Router, cqrs.CommandProcessor with a requestreply handler and a PubSubBackend whose reply topic is shared by all requests; 1..32 concurrent SendWithReplies / SendWithReply calls; " +
 			"handler outcomes per command {result, error, error k times then success (k+1 replies when AckCommandErrors=false), no reply at all (command published to a topic nobody handles)}; " +
 			"the error value of a failing handler is one of {text naming the command, errors.New(\"\"), an error type whose Error() is empty, \" \", blank (space tab newline), 2..20 kB text, \"1\" and \"0\" (the values of the has-error flag), \"true\"}; in 25% of the commands the handler returns the zero Res (with and without an error); in 30% of the cases 2..3 command processors consume the command topic (fan-out: every handler replies, also with AckCommandErrors=true a command then has several replies; <=16 requests then); AckCommandErrors on/off; optional ListenForReplyTimeout (25 ms); " +
@@ -147,7 +147,12 @@ func init() {
 			"Oracle: every reply a caller receives belongs to its own command (the notification the reply exposes is the one the backend published for a delivery of that command; result id / error text when they name a command) and carries exactly what the handler returned for that delivery: error present iff the handler returned one (reply-error-lost / reply-error-invented), the same error text (reply-error-text), the same result (reply-result); a caller that reads until it has them (promptly or late) gets every reply produced for its command as long as neither a time-out nor a context deadline can end the listening first (reply-missing / reply-lost-while-not-reading when it waits for ever at quiescence); the command message is unsettled when its reply is published (settled-before-reply-published) and at quiescence every single delivery of every command is settled cell by cell as the statement and the godoc of PubSubBackendConfig say: reply published -> ack, nack iff the handler failed and AckCommandErrors=false (command-settlement); reply publish failed and no ReplyPublishErrorHandler configured ('Command will be nacked by default when sending reply fails') or it returned an error ('If it returns an error the command will be nacked') -> nack, never ack (acked-without-reply); " +
 			"reply publish failed and the ReplyPublishErrorHandler returned nil -> the lost reply decides nothing, the delivery is acked or nacked as AckCommandErrors says for the handler's outcome (tolerated-reply-loss-settlement); with AckCommandErrors=true the handler runs exactly 1 + (untolerated reply-publish failures) times; when callers wait for ever at quiescence the settlements are judged first (a wrongly acked command explains the missing replies of its redeliveries); " +
 			"after cancel / cancellation of the caller's context (or, when ListenForReplyTimeout is configured or the caller's context has a near deadline, after that alone: such callers never end the request themselves; a reading caller must then see the channel closed - timeout-not-honoured / context-end-not-honoured when it reads for ever at quiescence, the 1 h deadline still pending) and at quiescence OnListenForReplyFinished ran exactly once per request and no listener goroutine remains - checked before the harness touches the reply channel of callers that stopped reading - and then the reply channel is observed closed; for a request whose send failed the same is demanded per started listener (a decorator around the backend handed to SendWith* counts the listeners started and keeps their reply channels): OnListenForReplyFinished ran as often as listeners were started (listener-not-finished-after-failed-send) and the channel the caller never got is closed (reply-channel-not-closed-after-failed-send). " +
-			"Non-trivial: >=2 concurrent requests shared the reply topic, or a caller stopped reading with replies pending. Distinct = (program shape incl. per-caller behaviour/context/ending, hook fingerprint).",
+			"Non-trivial: >=2 concurrent requests shared the reply topic, or a caller stopped reading with replies pending. Distinct = (program shape incl. per-caller behaviour/context/ending, hook fingerprint). " +
+			"Second class 'mix' (case indices after those of the first class: 240 quick / 9600 thorough; file mix.go; no time-out and no near deadline exists in it, every 'never' is decided at quiescence): 1..6 PubSubBackends with DIFFERENT Result types {string, struct whose id is a string, struct whose id is a number, [3]string, int64, NoResult with NewCommandHandler} and their own AckCommandErrors share one reply topic, one Pub/Sub, one Router and one cqrs.CommandBus; most of their notifications do not decode into each other's Result type; 2..12 concurrent top-level requests, each on a backend of the case, " +
+			"in 70% of the cases held pending together (the handlers wait until every top-level listener has been started, so every listener is offered every notification of the case); CommandBusConfig.OnSend hook of the case that edits the metadata of every outgoing command {none, copy-parent: copies all metadata of the message being handled (cqrs.OriginalMessageFromCtx of the outgoing message's context) incl. its operation id, copy-last: copies all metadata of the command published last incl. its (foreign) operation id, replace-map: assigns a new Metadata map, delete-keys: deletes every key but the command name, add-keys, stale-opid: writes a stale value under the operation-id key}; " +
+			"nested requests (60% of the cases, 45% of the commands there): the request-reply handler of an 'outer' command makes, with its handler context, a SendWithReply on the same bus for a fresh 'leaf' command on its own backend or on another backend of the case and returns a result derived from the nested reply (one nested request per redelivery); handler outcomes {result, error 1..2 times then success}; 7% of the commands are handled by nobody and stay pending; caller behaviours {drain, listen: read everything until the whole case is quiescent and end only then, late-drain, never-read, SendWithReply}, context {no deadline, 1 h}, ended by {cancel, the caller's context}. " +
+			"Oracle of the mix class: every reply a top-level caller or a nested request receives is attributed through the notification it exposes to the command delivery it was built for (foreign-reply) and must carry that delivery's result - compared as JSON after decoding with the caller's own Result type - and error (reply-result, reply-error-*); a ReplyUnmarshalError reply is a violation (foreign-unmarshal-error): every notification of the workload decodes into the Result type of the backend that produced it (checked per notification, else inconclusive), so such a reply can only stem from another request's notification; " +
+			"every reading caller gets all replies of its command, a SendWithReply the first (reply-missing, also when it waits for ever at quiescence); a nested SendWithReply that has not returned at quiescence never will (nested-reply-missing); a command handed to its handler more than 60 times is a redelivery loop (runaway-redelivery); settled-before-reply-published, command-settlement per backend, listener-not-finished (exactly one OnListenForReplyFinished per top-level and per nested request), listener-goroutine-leak, reply-channel-not-closed as in the first class. Non-trivial (mix): a listener was offered a foreign notification (counted at the requestreply.listen.notification hook point; how many of them its Result type cannot decode is a counter), the OnSend hook edited a command, or a nested request was made.",
 		Assumptions: []string{
 			"replies after cancel/timeout may be ReplyTimeoutError values; they are not attributed to a command",
 			"quiescence is judged only after every pending context deadline below 10 min has passed by 40 ms (context deadlines are invisible in goroutine dumps); the deadlines are read at the boundary: from the context the backend hands to the reply subscriber's Subscribe and from the caller contexts the harness creates; the 1 h deadline never fires within a case, so 'still listening at quiescence' is final",
@@ -157,8 +162,11 @@ func init() {
 			"a ReplyPublishErrorHandler that returns nil is the documented opt-out of 'only after the reply was published' for that delivery ('you can control this behaviour with the ReplyPublishErrorHandler config option'): such a delivery may be acked without a reply; what is demanded is that the handler's outcome and AckCommandErrors alone decide then. Whether the ReplyPublishErrorHandler is invoked when no publish failed is only counted (its scripted answer would show up as a wrong settlement)",
 			"GoChannel redelivers a nacked command to the same subscriber at once and hands every (re)delivery out as a fresh copy: deliveries are told apart by message pointer, attempts are counted per (handler, command)",
 			"a failed send that returns an error must end its listener by itself: the caller is left without anything to cancel (SendWithReply) - judged at quiescence with the caller's context still open",
+			"mix class: an OnSend hook may write any metadata key of the outgoing command, the operation-id key included: SendWithReplies stamps the operation id through the modify argument of SendWithModifiedMessage, which the bus applies to the message after OnSend (on the message OnSend left behind, also when OnSend assigned a new Metadata map); hooks never alias the metadata map of another message and never copy the command-name key",
+			"mix class: the nested request is sent to a handler other than the one that makes it (GoChannel hands a subscriber its next message only after the previous one was settled, so a handler waiting for a command queued behind its own delivery would wait for ever by construction); a nested SendWithReply whose first reply is an error reply (leaf handler fails once, AckCommandErrors=false) returns that reply, later replies of the leaf command find no listener",
+			"mix class: foreign notifications offered to listeners are counted at the hook point in front of the listener's filter (counters and non-triviality only, no verdict depends on it)",
 		},
-		Run: run,
+		Run: dispatch,
 	})
 }
 
